@@ -117,7 +117,8 @@ fn vamm_case(decimals: u8, x0: u128, y0: u128, blocks_once: &[Block], cycles: u1
         let mut accepted = 0;
         for op in &b.swaps {
             // owner actions are not trades: they must not disturb the price history either
-            let _ = super::curve::admin_churn(&mut sim, op.admin);
+            // (action 4 moves the clock by itself: it would split this block behind the model's back)
+            let _ = super::curve::admin_churn(&mut sim, if op.admin == 4 { 0 } else { op.admin });
             let st = sim.state();
             let r = resolve(op, &st, d, &seen);
             if exec_swap(&mut sim, &r, 0).is_ok() {
